@@ -184,6 +184,30 @@ proof fn lemma_row_major(n: nat, m: nat, i: nat, j: nat, t: Layout)
     assert(i * (n * t.size) + j * t.size == (i * n + j) * t.size) by (nonlinear_arith);
 }
 
+
+// generated from src/impl_const_default.rs:6,14,22: number of leaves of storage(n) that are initialised with T::DEFAULT
+//   even node: 2 halves initialised with U::DEFAULT, 0 elements with T::DEFAULT;  odd node: 2 halves, 1 elements
+pub open spec fn default_leaves(n: nat) -> nat
+    decreases n
+{
+    if n == 0 { 0 } else if n % 2 == 0 { 2 * default_leaves(n / 2) + 0 } else { 2 * default_leaves(n / 2) + 1 }
+}
+proof fn lemma_const_default(n: nat)
+    ensures default_leaves(n) == slots(n) && default_leaves(n) == n, /*OB:lemma_const_default.every-one-of-the-N-slots-is-T-DEFAULT:C19*/
+    decreases n
+{
+    lemma_slots(n);
+    if n > 0 { lemma_const_default(n / 2); lemma_slots(n / 2); }
+}
+
+
+// src/impl_zeroize.rs:5  `fn zeroize(&mut self) { self.as_mut_slice().iter_mut().zeroize() }`
+// as_mut_slice is the full view of N elements (proved in unit `views`); zeroize's own impl for IterMut zeroizes every item it
+// yields (assumed contract of the dependency); so the elements reached are exactly the N slots:
+proof fn lemma_zeroize_reaches_every_slot(n: nat)
+    ensures slots(n) == n, /*OB:lemma_zeroize.the-full-mutable-slice-has-all-N-slots:C19*/
+{ lemma_slots(n); }
+
 proof fn lemma_flatten_impl_1(n: nat, m: nat, t: Layout) requires valid_elem(t), ensures arr(m, arr(n, t)).size == arr(n * m, t).size, /*OB:flatten_owned.output-length-gives-same-extent:C11*/
 { lemma_nested(n, m, t); assert(m * n == n * m) by (nonlinear_arith); }
 proof fn lemma_flatten_impl_2(n: nat, m: nat, t: Layout) requires valid_elem(t), ensures arr(m, arr(n, t)).size == arr(n * m, t).size, /*OB:flatten_ref'a.output-length-gives-same-extent:C11*/
